@@ -13,4 +13,13 @@ CHECKS = {
           "right level: the structure is a small state machine and the property quantifies over its histories."),
     note=("Exhaustive only within the stated bounds (positions within W+3 of the newest, W=8 at the real ring); larger widths are sampled by walks and "
           "recorded traces. TLC, the JSON bridge and the projection of BitField.bits to offset sets are trusted. <=/>= on SeqNum are not constrained.")),
+ "C20": dict(
+    level="model_checking",
+    technique="TLC exhaustive model checking of Dispatch + replay of every transition of the TLC state graph into both real dispatchers (state equality)",
+    text=("The dispatcher is a small table machine; TLC explores every register/unregister/dispatch sequence over three resources with shared "
+          "classes (7 operations deep in the thorough tier) and checks the routing and inverse laws; the complete labelled state graph is then replayed "
+          "transition by transition into ServerMessageDispatcher and ClientMessageDispatcher, comparing the table, the outcome and the handler "
+          "actually invoked (with its arguments) against the specification state."),
+    note=("Three fixture resources, four classes, one unknown class; class vs postponed string annotations are mixed in the fixtures. What a refused "
+          "register leaves behind and whether unregister of a non-owner raises are left unspecified.")),
 }
